@@ -570,6 +570,33 @@ def run(ctx):
             lits.append(res_literal(r))
             cj.append(j)
     ctx.correspond("resource", IMPORTS, "res_case", "check_res_case", lits, cj)
+    wide_resources(ctx)
+
+
+def wide_resources(ctx):
+    """However many keys the sources supply, the identity keys and every source's keys are there (later overriding)."""
+    from deep.api.resource import Resource
+    from deep.grpc import convert_resource
+    for n_code, n_plugin in ((60, 10), (125, 2), (140, 30), (300, 300)):
+        code = {"code.k%d" % i: "c%d" % i for i in range(n_code)}
+        res = Resource.create(dict(code))
+        plug = {"plug.k%d" % i: i for i in range(n_plugin)}
+        plug["code.k0"] = "overridden"
+        res = res.merge(Resource.create(dict(plug)) if False else Resource(dict(plug)))
+        got = dict(res.attributes.items())
+        wire = {kv.key for kv in convert_resource(res).attributes}
+        j = dict(wide_resource=True, code_keys=n_code, plugin_keys=n_plugin, total=len(got))
+        ctx.case(j, nontrivial=True, bucket="wide-resource")
+        missing = [k for k in ("telemetry.sdk.language", "telemetry.sdk.name", "telemetry.sdk.version", "service.name") if k not in got or k not in wire]
+        if missing:
+            ctx.fail("with %d code and %d plugin attributes the resource lost its identity keys %r" % (n_code, n_plugin, missing), j,
+                     tag="mandatory-evicted")
+        lost = [k for k in list(code) + list(plug) if k not in got]
+        if lost:
+            ctx.fail("with %d code and %d plugin attributes %d supplied keys are missing from the resource (e.g. %r)" % (
+                n_code, n_plugin, len(lost), lost[:3]), j, tag="keys-evicted")
+        if got.get("code.k0") != "overridden":
+            ctx.fail("a later source did not override the earlier one key by key: code.k0=%r" % (got.get("code.k0"),), j, tag="precedence")
 
 
 def jsonable_case(c):
